@@ -320,12 +320,82 @@ def planted_cross_talk(a: int, b: int) -> bool:
     return [x for x in shared if x[1] == _id(b)] == ([("cs", _id(a))] if _id(a) == _id(b) else []) and _id(a) == _id(b)
 
 
+def _real_pipeline_run(files, which, a_raises_on):
+    """Real apply_codemods over `files` with the codemods named in `which` ('a' rewrites `a = 1`, its transformer
+    raising on file number a_raises_on; 'b' appends a line), each a real LibcstTransformerPipeline."""
+    import libcst as cst
+
+    from codemodder.codemods.base_codemod import Metadata, ReviewGuidance
+    from codemodder.codemods.libcst_transformer import LibcstTransformerPipeline
+    from harness import c10
+
+    cmod.logger = NoLog()
+    cmod.log_section = lambda *a, **k: None
+    ctxmod.log_list = lambda *a, **k: None
+
+    class TA:
+        @classmethod
+        def transform(cls, tree, results, file_context):
+            if file_context.file_path.rel == "f%d.py" % a_raises_on:
+                raise c10.Boom()
+            file_context.codemod_changes.append(Change(lineNumber=2, description="d"))
+            return cst.parse_module(tree.code.replace("a = 1", "a = 2"))
+
+    class TB:
+        @classmethod
+        def transform(cls, tree, results, file_context):
+            file_context.codemod_changes.append(Change(lineNumber=1, description="d"))
+            return cst.parse_module(tree.code + "z = 0\n")
+
+    md = lambda n: Metadata(name=n, summary="s", review_guidance=ReviewGuidance.MERGE_WITHOUT_REVIEW, description="d")
+    mods = {"a": c10._StubCodemod(metadata=md("a"), transformer=LibcstTransformerPipeline(TA)), "b": c10._StubCodemod(metadata=md("b"), transformer=LibcstTransformerPipeline(TB))}
+    ctx = c10._mk_context(False, files)
+    c10._install_serial()
+    cmod.apply_codemods(ctx, [mods[w] for w in which])
+    out = {}
+    for w in which:
+        m = mods[w]
+        out[w] = (
+            sorted((c.path, c.diff) for c in ctx.get_changesets(m.id)),
+            sorted(str(p) for p in ctx.get_failures(m.id)),
+            sorted((u.id, u.path) for u in ctx.get_unfixed_findings(m.id)),
+        )
+    return out
+
+
+def batch_equals_sequential_real_pipelines(k0: int, k1: int, a_raises_on: int, b_first: bool) -> bool:
+    """Two codemods built on the REAL LibcstTransformerPipeline over 2 files whose kind is symbolic (healthy,
+    undecodable, unparsable, vanished) and with an optional transformer fault: the run `A;B` (or `B;A`) through the
+    real apply_codemods reports, per codemod, the same changesets (paths and diffs), failed files and unfixed findings,
+    and leaves the same bytes on disk, as running the two codemods one at a time in fresh contexts over the same tree.
+    pre: -1 <= a_raises_on <= 1
+    post: _
+    """
+    from harness import c10
+    from vlib.stubs import FakePath
+
+    kinds = [c10._pick_file_kind(k0), c10._pick_file_kind(k1)]
+    mk = lambda: [FakePath(c10.CONTENT[k], rel="f%d.py" % i, vanished=(k == 3)) for i, k in enumerate(kinds)]
+    order = "ba" if b_first else "ab"
+    batch_files = mk()
+    batch = _real_pipeline_run(batch_files, order, a_raises_on)
+    seq_files = mk()
+    seq = {}
+    for w in order:
+        seq.update(_real_pipeline_run(seq_files, w, a_raises_on))
+    same_bytes = all(x.content == y.content for x, y in zip(batch_files, seq_files))
+    return fin(batch == seq and same_bytes)
+
+
+
 def warmup():
     inductive_step([0, 1, 0], 1, 2, 1, 1, True)
     batch_equals_sequential(3, 3, True, False, 1, 0, False, True)
     shared_manifest(True, False, False)
     shared_manifest(False, True, True)
     manifest_rewritten_between_codemods(True, False)
+    batch_equals_sequential_real_pipelines(0, 2, 0, False)
+    batch_equals_sequential_real_pipelines(1, 0, -1, True)
 
 
 SPEC = {
@@ -335,6 +405,7 @@ SPEC = {
     "functions": [
         "CodemodExecutionContext.process_results / add_changesets / add_failures / add_dependencies / add_unfixed_findings / get_* / compile_results / process_dependencies / add_description",
         "codemodder.codemodder.apply_codemods / record_dependency_update",
+        "BaseCodemod.apply / _process_file + LibcstTransformerPipeline.apply for two stub codemods over files of symbolic kind (batch run vs one-at-a-time runs)",
         "PackageStore.has_requirement, DependencyWriter.write / add, RequirementsTxtWriter.add_to_file (shared manifest across two codemods)",
     ],
     "bounds": {
@@ -352,6 +423,7 @@ SPEC = {
         Xh("batch_equals_sequential", 500, 1200),
         Xh("shared_manifest", 200, 400),
         Xh("manifest_rewritten_between_codemods", 200, 400),
+        Xh("batch_equals_sequential_real_pipelines", 300, 600),
         Xh("planted_cross_talk", 60, 120, twin=False, expect="refuted"),
     ],
 }
